@@ -71,6 +71,7 @@ package packfile
 //gvc:  props C06 C53
 //gvc:  theory int
 //gvc:  results err
+//gvc:  modifies dst.#wlen
 //gvc:  requires dstnn: dst != nil
 //gvc:  let d0 = arr(delta)
 //gvc:  let p0 = off(delta)
@@ -102,6 +103,7 @@ package packfile
 //gvc:  props C09 C53
 //gvc:  theory int
 //gvc:  results cnt err
+//gvc:  modifies b.n, b.w.#wlen
 //gvc:  requires inv: 0 <= b.n && b.n <= b.limit
 //gvc:  requires sane: b.limit <= 0x2000000000000000
 //gvc:  requires wnn: b.w != nil
@@ -119,6 +121,7 @@ package packfile
 //gvc:  props C09 C53
 //gvc:  theory int
 //gvc:  results cnt err
+//gvc:  modifies b.lr, b.overrun, p[*]
 //gvc:  requires inv: b.overrun || b.lr.N >= 1
 //gvc:  ensures inv: b.overrun || b.lr.N >= 1
 //gvc:  ensures range: 0 <= cnt && cnt <= len(p)
@@ -142,4 +145,54 @@ package packfile
 //gvc:  requires offs: r.offset >= 0
 //gvc:  ensures exact: err == nil && next == nil ==> now(bw).n == r.packData.objectHeader.Size
 //gvc:  ensures ofsbase: err == nil && next == nil && r.packData.objectHeader.Type == 6 ==> spec_ofs_base_ok(r.packData.objectHeader.Offset, r.packData.objectHeader.Offset - r.packData.objectHeader.OffsetReference)
+//gvc:end
+
+// patchDeltaWriter (streaming applier; coarse). Property C06: no applier
+// reports success after producing partial output: on a nil error exactly
+// targetSz bytes were written to the output (mw is the writer every copy
+// goes to) and the whole delta stream was consumed.
+//gvc:func patchDeltaWriter
+//gvc:  props C06
+//gvc:  theory int
+//gvc:  opt coarse
+//gvc:  opt frame args
+//gvc:  results size hash err
+//gvc:  requires nn: deltaBuf != nil && dst != nil && base != nil
+//gvc:  loop 1 let w0 = mw.#wlen
+//gvc:  loop 1 invariant account: mw.#wlen + remainingTargetSz == w0 + targetSz
+//gvc:  loop 1 decreases remainingTargetSz
+//gvc:  ensures complete: err == nil ==> now(mw).#wlen == w0 + size
+//gvc:  ensures consumed: err == nil ==> deltaBuf.#pos == deltaBuf.#n
+//gvc:end
+
+// Copy instruction encoder (round trip with the decoders' spec, git delta.h).
+//gvc:func encodeCopyOperation
+//gvc:  props C06
+//gvc:  theory bv
+//gvc:  loop 1 unroll 4
+//gvc:  requires range: 0 <= offset && offset <= 0xffffffff && 1 <= length && length <= 0xffffff
+//gvc:  ensures cmd: len(result) >= 1 && result[0] & 0x80 != 0
+//gvc:  ensures size: len(result) == 1 + spec_popcount4(result[0] & 0x0f) + spec_popcount3((result[0] >> 4) & 7)
+//gvc:  ensures off: spec_copy_offset(result[0], arr(result), off(result) + 1) == offset
+//gvc:  ensures len: spec_copy_size(result[0], arr(result), off(result) + 1 + spec_popcount4(result[0] & 0x0f)) == length
+//gvc:end
+
+//gvc:func decodeOffsetByteReader
+//gvc:  props C06 C53
+//gvc:  theory bv
+//gvc:  results off err
+//gvc:  modifies delta.#pos
+//gvc:  let p0 = delta.#pos
+//gvc:  ensures val: err == nil ==> off == spec_copy_offset(cmd, delta.#data, p0) && delta.#pos == p0 + spec_popcount4(cmd & 0x0f)
+//gvc:  ensures bound: err == nil ==> off <= 0xffffffff
+//gvc:end
+
+//gvc:func decodeSizeByteReader
+//gvc:  props C06 C53
+//gvc:  theory bv
+//gvc:  results sz err
+//gvc:  modifies delta.#pos
+//gvc:  let p0 = delta.#pos
+//gvc:  ensures val: err == nil ==> sz == spec_copy_size(cmd, delta.#data, p0) && delta.#pos == p0 + spec_popcount3((cmd >> 4) & 7)
+//gvc:  ensures bound: err == nil ==> 1 <= sz && sz <= 0xffffff
 //gvc:end
